@@ -86,6 +86,8 @@ def run(ctx):
     calc = []
     for n, f in F.fns.items():
         r = f.origin_local(0)
+        if r[0] == "field" and r[1][0] == "variant" and r[1][2] == "Some" and is_call_to(r[1][1], "SystemTime::checked_add"):
+            r = r[1][1]           # Some-payload of now.checked_add(ttl): the non-panicking form
         if f.rec.get("ret") == "std::time::SystemTime" and r[0] == "call" and ("ops::Add" in r[1] or "checked_add" in r[1]) and any(is_call_to(x, "Clock::now") for x in subexprs(r)):
             calc.append(f)
             nowc = [x for x in r[2] if is_call_to(x, "Clock::now")]
